@@ -399,6 +399,11 @@ def callProg (directed : Bool) (c : String) : Option (Prog Nat Nat String) :=
   | some "q" => some ((if directed then Sync.Di.isConnected (n 1) (n 2) else Sync.Un.isConnected (n 1) (n 2)).bind fun b => .done (b01 b))
   | some "g" => some ((if directed then Sync.Di.outDegree (n 1) else Sync.Un.degree (n 1)).bind fun d => .done (toString d))
   | some "o" => some ((if directed then Sync.Di.isOrphan (n 1) else Sync.Un.isOrphan (n 1)).bind fun b => .done (b01 b))
+  | some "n" => some ((Sync.Di.inDegree (n 1)).bind fun d => .done (toString d))
+  | some "r" => some ((Sync.query (n 1) (fun a => a.inn.isEmpty)).bind fun b => .done (b01 b))
+  | some "l" => some ((Sync.query (n 1) (fun a => a.out.isEmpty)).bind fun b => .done (b01 b))
+  | some "f" => some ((Sync.query (n 1) (fun a => hasKey a.inn (n 2))).bind fun b => .done (b01 b))
+  | some "F" => some ((Sync.query (n 1) (fun a => if directed then hasKey a.out (n 2) else hasKey a.out (n 2) || hasKey a.inn (n 2))).bind fun b => .done (b01 b))
   | some "i" => some ((iterAll (n 1) (if directed then (·.out) else fun a => a.out ++ a.inn) 64 0 []).bind fun l => .done (showList l))
   | _ => none
 
